@@ -244,6 +244,19 @@ class C04(RunSpec):
         p["leaf"] = _cycle(ALL_LEAVES, idx, 1)
         p["maximize"] = bool(idx % 2)
         p["fams"] = ["rastrigin", "funnel", "sphere", "absv", "plateau", "linear", "face", "plateau"]
+        if idx % 3 == 1:
+            # steadily converging runs: the best-ever value is typically first observed in the very last generations,
+            # which is where an evaluated-but-not-recorded generation (or a stale best) becomes visible
+            conv = ["de", "shade", "sea", "de_dither", "sea_cx", "cma", "mwea"]
+            p["root"] = _cycle(conv[:5], idx // 3)
+            p["leaf"] = _cycle(conv, idx // 3, 2)
+            p["inner"] = _cycle(conv[:4], idx // 3, 3)
+            p["fams"] = ["sphere", "absv", "face", "linear", "sphere"]
+            p["lscs"] = ["dontstop"]
+            p["gscs"] = ["melimit", "evals", "fevals"]
+            p["levels"] = [1, 2, 2, 3]
+            p["boxes"] = ["sym", "asym", "decimal"]
+            p["stacks"] = False
         if idx % 6 == 5:
             p = {"kind": "minimize", "dim": (2, 4), "pair": True}
         return p
@@ -260,6 +273,7 @@ class C04(RunSpec):
             ("direction.max", 10, "maximisation runs"),
             ("C04.best_ever_not_in_any_current_population", 1, "best-ever individual no longer in any current population"),
             ("C04.budget_pairs", 1, "budget pairs"),
+            ("C04.best_ever_first_observed_around_first_true", 10, "runs whose best-ever value was first observed in the last generations before / after the GSC became true"),
         ]
 
 
@@ -433,10 +447,9 @@ class C07(RunSpec):
 
     def profile(self, rng, idx, tier):
         p = {"dim": (2, 3)}
-        p["roots"] = ROOT_ENGINES + ["custom"]
-        p["root"] = _cycle(ROOT_ENGINES + ["custom"], idx)
-        p["leaf"] = _cycle(ALL_LEAVES + ["custom"], idx, 1)
-        p["inner"] = _cycle(INNER_ENGINES + ["custom"], idx, 2)
+        p["root"] = _cycle(ROOT_ENGINES + ["custom", "custom_ea"], idx)
+        p["leaf"] = _cycle(ALL_LEAVES + ["custom", "custom_ea"], idx, 1)
+        p["inner"] = _cycle(INNER_ENGINES + ["custom", "custom_ea"], idx, 2)
         p["levels"] = [2, 3, 3, 1]
         p["gscs"] = ["melimit", "evals"]
         p["entry"] = "tree"
@@ -446,7 +459,8 @@ class C07(RunSpec):
         return [
             ("C07.three_level_tree_two_sprouting_parents", 1, "3-level tree with >=2 sprouting parents on level 1"),
             ("C07.round_creating_2_children", 1, "round creating >=2 children"),
-            ("C07.custom_deme_class_seen", 1, "custom deme class"),
+            ("C07.custom_deme_class_seen.custom", 1, "custom deme class registered for a new config class"),
+            ("C07.custom_deme_class_seen.custom_ea", 1, "custom deme class registered for a new config class derived from a built-in one"),
             ("C07.seeds_checked", 20, "seeds checked"),
         ]
 
@@ -503,12 +517,30 @@ class C09(RunSpec):
         p["lscs"] = ["dontstop", "melimit", "user"]
         p["level_limit"] = rng.randint(2, 4)
         p["fams"] = ["rastrigin", "funnel", "sphere", "linear"]
+        if idx % 4 == 3:
+            # three levels, several mid-level parents converging into the same basin: their candidates come close to
+            # leaves sprouted by *other* parents, which is what the filter has to look at (whole target level)
+            p["n_levels"] = 3
+            p["fams"] = ["sphere", "face", "absv"]
+            p["root"] = _cycle(["sea", "de", "shade", "sea_cx"], idx // 4)
+            p["inner"] = _cycle(["sea", "de", "shade", "cma"], idx // 4, 2)
+            p["sprout"] = _cycle(["simple", "custom"], idx // 4)
+            p["level_limit"] = rng.randint(3, 4)
+            p["lscs"] = ["dontstop"]
         return p
 
     def make_case(self, seed, idx, tier):
         d = super().make_case(seed, idx, tier)
         if d["gsc"]["k"] == "melimit":
             d["gsc"]["n"] = max(d["gsc"]["n"], 6)
+        if idx % 4 == 3:
+            rmin = min(b[1] - b[0] for b in d["box"]["bounds"])
+            d["gsc"] = {"k": "melimit", "n": 10}
+            if d["sprout"]["k"] == "simple":
+                d["sprout"]["far"] = rmin * 0.1
+            else:
+                d["sprout"]["gen"] = {"k": "best"}
+                d["sprout"]["dfilters"] = [{"k": "far", "d": rmin * 0.1, "ord": 2}]
         return d
 
     def floors(self, tier):
